@@ -91,6 +91,9 @@ type wmUdpConn struct {
 // would cut it and the cut query cannot be decoded.
 const udpReadBufSize = 65535
 
+// 65535 - ip header (20) - udp header (8)
+const maxUdpPayloadSize = 65507
+
 func (s *udpServer) startThread(c *net.UDPConn) error {
 	switch runtime.GOOS {
 	case "linux":
@@ -216,6 +219,11 @@ func (s *udpServer) handleReq(m *dnsmsg.Msg, rc *RequestContext, oobAddr netip.A
 	}
 	if clientUdpSize < 512 {
 		clientUdpSize = 512
+	}
+	// The payload of a udp datagram cannot be larger. The write would fail
+	// and the client would get nothing instead of a truncated response.
+	if clientUdpSize > maxUdpPayloadSize {
+		clientUdpSize = maxUdpPayloadSize
 	}
 
 	b := mustHaveRespB(m, rc.Response.Msg, dnsmsg.RCodeRefused, false, clientUdpSize)
